@@ -1,8 +1,8 @@
 (* C07 - DFXP output is well-formed XML and internally consistent.
    Only statements closed by `exact`, with Print Assumptions, and non-vacuity examples. *)
 From Coq Require Import List ZArith Bool.
-From PV Require Import lib.Sx lib.Str lib.Result model.DfxpXml model.DfxpRegion spec.SpecXmlAttr.
-From PV Require Import proofs.XmlAttrFacts proofs.DfxpRegionFacts proofs.DfxpPayloadFacts.
+From PV Require Import lib.Sx lib.Str lib.Result model.DfxpXml model.DfxpRegion model.DfxpDoc spec.SpecXmlAttr.
+From PV Require Import proofs.XmlAttrFacts proofs.DfxpRegionFacts proofs.DfxpPayloadFacts proofs.DfxpDocFacts.
 Import ListNotations.
 Open Scope Z_scope.
 
@@ -58,6 +58,25 @@ Theorem C07_no_unreferenced_region : forall cs r, In r (defined cs) -> In r (all
 Proof. exact no_unreferenced_region. Qed.
 Print Assumptions C07_no_unreferenced_region.
 
+(* ---- wave 2: the WHOLE writer traversal (styling section, regions, languages x captions x nodes; model/DfxpDoc.v).
+        For every caption set whose style ids are distinct and differ from the region ids, the ids and references of
+        the document satisfy the oracle ok_refs: ids unique, every style= (head and body) and every region= resolves
+        to exactly one definition, every region defined is referenced. -------------------------------------------- *)
+Theorem C07_doc_consistent : forall d, dom_doc d = true ->
+  let s := summarize d in
+  ok_refs (s_ids s) (s_style_ids s) (s_region_ids s) (s_style_refs s) (s_region_refs s) = 0.
+Proof. exact doc_consistent. Qed.
+Print Assumptions C07_doc_consistent.
+(* the attribute dictionary of a positioned span (style attributes, region, inline positioning attributes merged in
+   a dict, positioning wins) has valid, pairwise distinct names: the payload theorem covers positioned spans too *)
+Theorem C07_span_attributes_ok : forall content ids region inline,
+  (forall v, In v (map snd content) -> forallb is_xml_char v = true) ->
+  match region with Some r => forallb is_xml_char r = true | None => True end ->
+  (forall k v, In (k, v) inline -> valid_name k = true /\ forallb is_xml_char v = true) ->
+  attrs_ok (span_attributes (recreate_style content ids) region inline) [].
+Proof. exact span_attributes_ok. Qed.
+Print Assumptions C07_span_attributes_ok.
+
 (* ---- non-vacuity ------------------------------------------------------------------------------------------------ *)
 Example C07_example_attr :
   attr_out (lit "a""b<c&d") = [39] ++ lit "a""b&lt;c&amp;d" ++ [39] /\
@@ -70,6 +89,20 @@ Example C07_example_payload :
   = (lit "a<br/>" ++ [10; 32; 32; 32; 32] ++ lit "<span tts:color=""r&amp;d"">x&lt;y</span> z", false)
   /\ exists evs, content_parse (fst (recreate_text false false nodes)) = Some evs.
 Proof. split; [vm_compute; reflexivity|eexists; vm_compute; reflexivity]. Qed.
+Example C07_example_document :
+  let d := mkDset None [(lit "k1", [(lit "color", lit "white")]); (lit "k2", [(lit "class", lit "k1"); (lit "italics", lit "x")]);
+                        (lit "empty", [])]
+             [mkDlang (Some (1, true))
+                [mkDcap None (Some [(lit "class", lit "k2")])
+                   [mkDnode (mkRnode (Some (2, true)) true) [(lit "class", lit "k1"); (lit "text-align", lit "left")]];
+                 mkDcap None None []]] in
+  dom_doc d = true /\
+  s_ids (summarize d) = [lit "k1"; lit "k2"; lit "r0"; lit "r1"] /\
+  s_style_refs (summarize d) = [lit "k1"; lit "k2"; lit "k1"] /\
+  s_region_refs (summarize d) = [lit "r0"; lit "r0"; lit "r1"; lit "r0"] /\
+  span_attributes [(lit "tts:textAlign", lit "left")] (Some (lit "r1")) [(lit "tts:origin", lit "10% 20%"); (lit "tts:textAlign", lit "start")]
+  = [(lit "tts:textAlign", lit "start"); (lit "region", lit "r1"); (lit "tts:origin", lit "10% 20%")].
+Proof. vm_compute. repeat split. Qed.
 Example C07_example_regions :
   let cs := mkRset None [mkRlang (Some (1, true)) [mkRcap None [mkRnode (Some (2, true)) false; mkRnode (Some (3, true)) true];
                                                   mkRcap (Some (0, true)) []]] in
